@@ -534,6 +534,11 @@ func (s *MemoryBackend) ReadUsersetTuples(
 			Object:   filter.Object,
 			Relation: filter.Relation,
 		}) && tupleUtils.GetUserTypeFromUser(t.User) == tupleUtils.UserSet {
+			// The condition filter applies to every candidate, before it is added to the result.
+			if len(filter.Conditions) > 0 && !slices.Contains(filter.Conditions, t.ConditionName) {
+				continue
+			}
+
 			if len(filter.AllowedUserTypeRestrictions) == 0 { // 1.0 model.
 				matches = append(matches, t)
 				continue
